@@ -26,7 +26,7 @@ DEFAULTS = {
 INF = float('inf')
 NAN = float('nan')
 BOUNDARY = {
-    'terminal_input': [('empty', ''), ('long', '7' * 400), ('commas', ',,,'),
+    'terminal_input': [('empty', ''), ('long', '7' * 400), ('digits5000', '7' * 5000), ('commas', ',,,'),
                        ('huge', '1e999'), ('blank', '   ')],
     'terminal_inkey': [('two', '\x00H'), ('long', 'k' * 300)],
     'rng_get_next': [('huge', 1e39), ('negative', -3.5), ('one', 1.0),
